@@ -71,3 +71,57 @@ def rrPicks (st : RR) (ps : List Int) (start : Option Nat) : Nat → Option (Lis
       | some (xs, st'') => some (x :: xs, st'')
 
 end Afkak.Partitioner
+
+namespace Afkak.Partitioner
+
+/-! ## The producer's per-topic partitioners (`Producer._next_partition`, producer.py)
+
+`self.partitioners` is a dict topic → partitioner; a missing topic gets
+`partitioner_class(topic, partitions)` (whose `__init__` runs `_set_partitions`) and then
+`.partition(key, partitions)` is called with the current partition list. -/
+
+abbrev PMap := List (String × RR)
+
+def PMap.get (m : PMap) (t : String) : Option RR :=
+  match m with
+  | [] => none
+  | (t', st) :: rest => if t' = t then some st else PMap.get rest t
+
+def PMap.set (m : PMap) (t : String) (st : RR) : PMap :=
+  match m with
+  | [] => [(t, st)]
+  | (t', st') :: rest => if t' = t then (t, st) :: rest else (t', st') :: PMap.set rest t st
+
+/-- `_next_partition(topic, key)` for the round-robin class, metadata already good. -/
+def getOrNew (m : PMap) (t : String) (ps : List Int) (start : Option Nat) : Option RR :=
+  match m.get t with
+  | some st => some st
+  | none => setPartitions ps start
+
+def nextPartitionRR (m : PMap) (t : String) (ps : List Int) (start : Option Nat) :
+    Option (Int × PMap) :=
+  match getOrNew m t ps start with
+  | none => none
+  | some st => match rrPartition st ps start with
+    | none => none
+    | some (x, st') => some (x, m.set t st')
+
+end Afkak.Partitioner
+
+namespace Afkak.Partitioner
+
+structure Call where
+  topic : String
+  ps : List Int
+  start : Option Nat
+  deriving Repr, DecidableEq
+
+/-- The selections made for topic `t` (in order; `none` = the call raised) while the producer
+    processes an arbitrary interleaving of calls for any topics. -/
+def picksOf (t : String) (m : PMap) : List Call → List (Option Int)
+  | [] => []
+  | c :: cs => match nextPartitionRR m c.topic c.ps c.start with
+    | none => (if c.topic = t then [none] else []) ++ picksOf t m cs
+    | some (x, m') => (if c.topic = t then [some x] else []) ++ picksOf t m' cs
+
+end Afkak.Partitioner
